@@ -32,6 +32,8 @@ Next == lv < MaxLv /\ lv' = lv + 1 /\ UNCHANGED M
 Spec == Init /\ [][Next]_vars
 
 TwoDefinitionsAgree == LevelSet(M, lv) = LevelSetD(M, Alpha, lv)
+(* the counting recurrence used in trace validation is the cardinality of the level set *)
+KeyspaceDPIsKeyspace == KeyspaceDP(M, lv) = Keyspace(M, lv)
 
 (* ---- I-layer: lib_trainer/omen/evaluate_password.py ---- *)
 (* _rec_calc_keyspace(level, length = transitions left, ip) *)
